@@ -528,6 +528,8 @@ func parsePromQLFunc(s Source, expr string, n *promParser.Call) Source {
 
 	case "absent", "absent_over_time":
 		s.Returns = promParser.ValueTypeVector
+		// This will return something only if the inner query doesn't.
+		s.AlwaysReturns = s.IsDead
 		if s.IsDead {
 			// absent() of a query that never returns anything will always return.
 			s.IsDead = false
